@@ -166,6 +166,67 @@ class CancellableWriter(Contract):
 TRANSPORT = "src/chuk_mcp/transports/stdio/transport.py"
 
 
+class EnteringTaskGroup(E.EnvClass):
+    """anyio task group while the client is being entered: __aenter__ does not yield (read from the installed anyio:
+    it only enters the group's cancel scope), start_soon schedules"""
+    name = "TaskGroupAtEnter"
+
+    def __init__(self):
+        self.methods = {"__aenter__": E.is_async(lambda I, r, a, k: r), "start_soon": lambda I, r, a, k: V.NONE,
+                        "__aexit__": E.is_async(lambda I, r, a, k, exc=None: V.FALSE)}
+
+
+TG_ENTER = EnteringTaskGroup()
+
+
+class AEnterCancelled(Contract):
+    """StdioClient.__aenter__ under a cancellation of the caller delivered at any of its awaits: once the child exists,
+    entering either completes (the context then owns the child and __aexit__ ends it) or does not leave the child
+    running - there is no cancellation point between the spawn and the return."""
+    key = f"{STDIO}::StdioClient.__aenter__"
+    prop = "C16"
+    covers = ("return", "raise:CancelledError")
+
+    def setup(self, I):
+        self.ext = external_scope(I)
+        self.spawned = []
+        ctx = I.ctx
+
+        def open_process(I2, args, kwargs, node):
+            E.checkpoint(I2, "open_process")                       # cancellable until the child exists
+            if I2.choose_n(2, "open_process_outcome") == 1:
+                I2.throw("FileNotFoundError", "No such file or directory")
+            proc, _o, _i, _c = ST.make_process(I2, running=True)
+            self.spawned.append(proc)
+            return proc
+        ctx.extern_handlers["anyio.open_process"] = E.is_async(open_process)
+        ctx.extern_handlers["anyio.create_task_group"] = lambda I2, a, k, n: E.new_env_object(I2, TG_ENTER)
+
+        def sleep(I2, args, kwargs, node):
+            E.checkpoint(I2, "sleep")
+            return V.NONE
+        ctx.extern_handlers["anyio.sleep"] = E.is_async(sleep)
+        ctx.env_class(TG_ENTER)
+        cmd = I.fresh("command")
+        I.assume(z3.And(V.is_str(cmd), z3.Length(Val.s(cmd)) > 0))
+        env = I.fresh("env")
+        I.assume(z3.And(V.is_dict(env), Val.dsize(env) >= 1))
+        for k in ("LOG_LEVEL", "LOGGING_LEVEL"):
+            I.assume(z3.Implies(z3.Select(Val.dkeys(env), z3.StringVal(k)), V.is_str(z3.Select(Val.dvals(env), z3.StringVal(k)))))
+        from pyvc import pyd
+        p = I.new_object(ST.klass(I, f"{ST.PARAMS}::StdioParameters"),
+                         {"command": cmd, "args": V.VList([]), "env": env, pyd.EXTRA: V.VDict([])})
+        self.client = I.instantiate(ST.klass(I, f"{STDIO}::StdioClient"), [p], {}, None)
+        return [self.client], {}
+
+    def post_exc(self, I, e):
+        if e.cls_name == "CancelledError":
+            left = [z3.Not(V.is_none(E.gfield(I, pr, "returncode"))) for pr in self.spawned]
+            I.oblige(self.name("a_cancelled_enter_leaves_no_child_running"), z3.And(left) if left else z3.BoolVal(True))
+
+
+
+
 class ClientEnterModular(Contract):
     """call-site form of StdioClient.__aenter__ (spawn verified in C20): the client is entered, or the spawn failure
     (any Exception) propagates"""
@@ -266,7 +327,7 @@ class C16(Check):
 
     def contracts(self):
         return [TerminateProcess(False), TerminateProcess(True), AExit("normal"), AExit("body_exception"),
-                AExit("cancelled"), CancellableWriter(), TransportEnter(), TransportExit()]
+                AExit("cancelled"), CancellableWriter(), TransportEnter(), TransportExit(), AEnterCancelled()]
 
     def loop_invariants(self):
         from checks import C06
